@@ -209,7 +209,9 @@ def conv_op(op, ids, kindf, fresh_ok):
     return ("Leaf", _id(op, ids, fresh_ok), kind, mc_ir.has_inner_ops(op))
 
 
-def conv_func(fop, ids, kindf, fresh_ok, nb=None):
+def conv_func(fop, ids, kindf, fresh_ok, nb=None, strict=True):
+    """strict (L1): the header may only compare the core id with 0 and nb-1.  L2 passes strict=False: a guard on any
+    other constant is still a Guard node of the abstract program, and the per-core traces show what it does."""
     blocks = [conv_block(b, ids, kindf, fresh_ok) for b in fop.body.blocks]
     call = dmc = cc = False
     pins = []
@@ -226,7 +228,7 @@ def conv_func(fop, ids, kindf, fresh_ok, nb=None):
             cc = True
         elif nb is not None and k == nb - 1:
             dmc = True
-        else:
+        elif strict:
             raise Unsupported(f"core comparison with unexpected constant {k}")
     return {"call": call, "dm": dmc, "comp": cc, "pins": pins, "blocks": blocks}
 
@@ -261,7 +263,7 @@ def find_func(mod, name="f"):
     raise Unsupported("no function")
 
 
-def run_real(text, nb, kindf):
+def run_real(text, nb, kindf, strict=True):
     """parse, convert before, run the real pass, convert after. Returns (before_blocks, after_dict, module)."""
     from snaxc.transforms.dispatch_regions import DispatchRegions
     mod = mc_ir.parse(text)
@@ -270,7 +272,7 @@ def run_real(text, nb, kindf):
     before = conv_func(fop, ids, kindf, True)
     DispatchRegions(nb_cores=nb).apply(mc_ir.xctx(), mod)
     mod.verify()
-    after = conv_func(find_func(mod), ids, kindf, False, nb)
+    after = conv_func(find_func(mod), ids, kindf, False, nb, strict)
     return before, after, mod
 
 
@@ -366,7 +368,7 @@ def search_cases(ctx, items):
     cases, meta = [], []
     for text, nb in items:
         try:
-            before, after, mod = run_real(text, nb, mc_ir.spec_kind)
+            before, after, mod = run_real(text, nb, mc_ir.spec_kind, strict=False)
         except Unsupported as e:
             fails.append({"what": "convert", "detail": str(e), "text": text, "nb": nb, "klass": None})
             continue
@@ -435,7 +437,7 @@ def replay(ctx, obj):
     print(text)
     print("nb_cores =", nb)
     try:
-        before, after, mod = run_real(text, nb, mc_ir.spec_kind)
+        before, after, mod = run_real(text, nb, mc_ir.spec_kind, strict=False)
         print("---- real output\n" + str(mod))
     except Exception as e:
         print("FAIL", repr(e))
